@@ -16,3 +16,49 @@ From HC Require Import Geom.Shoelace.
 Theorem C13_fan_tiles_area : forall apex rest, area2 (apex :: rest) = fan apex rest.
 Proof. exact fan_tiles_area. Qed.
 Print Assumptions C13_fan_tiles_area.
+
+(** The fan triangulation of a polygon leaves n - 2 triangles.  [chain f p0 C]: starting at p0 the 1-images run through
+    the list C; the polygon is closed (the last dart of C goes back to p0, which has it as 0-image); C has k + 2 darts
+    for k pairs of spare darts; all darts involved are pairwise distinct.  [fan_tri f p0 C pairs]: for each pair (x, y)
+    in turn the current dart d, its successor c and x form the triangle d -> c -> x -> d, glued along x | y to the next
+    one, which starts at y; the last two darts of C close the last triangle.  Every image of every other dart is as it
+    was.  Proved for every store, attribute law and injected failure: first the transactional program (sews with
+    their merges) is shown to refine a pure function on images ([fan_from_refines]), then the pure function is
+    analysed by induction over the list of pairs ([fan_pure_spec], [fan_from_pure_spec]). *)
+From Coq Require Import List.
+From HC Require Import Stm.ProgFacts Map2.FanTopo.
+Import ListNotations.
+Theorem C13_fan_leaves_triangles `{Sig} : forall E n ks p0 nds C c w cnt w' cnt',
+  chain (beta w) p0 C -> beta w 0 p0 = last C p0 -> beta w 1 (last C p0) = p0 ->
+  length C = (length (chunks2 nds) + 2)%nat -> NoDup (p0 :: C ++ flat (chunks2 nds)) ->
+  run E (fan_from n ks p0 nds) c w cnt = (Done tt, w', cnt') ->
+  fan_tri (beta w') p0 C (chunks2 nds) /\
+  (forall i d, ~ In d (p0 :: C ++ flat (chunks2 nds)) -> beta w' i d = beta w i d).
+Proof. exact fan_from_triangulates. Qed.
+Print Assumptions C13_fan_leaves_triangles.
+
+(** the refinement itself: the images after a fan are those of the pure function, on every store *)
+Theorem C13_fan_refines_pure `{Sig} : forall E n ks sdart nds c w cnt w' cnt',
+  run E (fan_from n ks sdart nds) c w cnt = (Done tt, w', cnt') ->
+  forall i d, beta w' i d = fan_from_pure (beta w) sdart (chunks2 nds) i d.
+Proof. exact fan_from_refines. Qed.
+Print Assumptions C13_fan_refines_pure.
+
+(** Non-vacuity: a pentagon 1 -> 2 -> 3 -> 4 -> 5 -> 1 and the spare darts (6, 7), (8, 9) meet the premises, and the pure
+    function leaves the three triangles 1 -> 2 -> 6, 7 -> 3 -> 8, 9 -> 4 -> 5. *)
+Definition c13_pentagon : img := fun i d =>
+  if i =? 1 then (if d =? 1 then 2 else if d =? 2 then 3 else if d =? 3 then 4 else if d =? 4 then 5 else if d =? 5 then 1 else 0)
+  else if i =? 0 then (if d =? 1 then 5 else if d =? 2 then 1 else if d =? 3 then 2 else if d =? 4 then 3 else if d =? 5 then 4 else 0)
+  else 0.
+Example C13_pentagon_premises :
+  chain c13_pentagon 1 [2; 3; 4; 5] /\ c13_pentagon 0 1 = last [2; 3; 4; 5] 1 /\ c13_pentagon 1 (last [2; 3; 4; 5] 1) = 1 /\
+  length [2; 3; 4; 5] = (length [(6, 7); (8, 9)] + 2)%nat /\ NoDup (1 :: [2; 3; 4; 5] ++ flat [(6, 7); (8, 9)]).
+Proof.
+  repeat split; try reflexivity.
+  cbn. repeat (constructor; [cbn; intros Q; repeat (destruct Q as [Q|Q]; [discriminate Q|]); exact Q|]). constructor.
+Qed.
+Example C13_pentagon_triangles :
+  let f' := fan_from_pure c13_pentagon 1 [(6, 7); (8, 9)] in
+  (f' 1 1, f' 1 2, f' 1 6) = (2, 6, 1) /\ (f' 1 7, f' 1 3, f' 1 8) = (3, 8, 7) /\ (f' 1 9, f' 1 4, f' 1 5) = (4, 5, 9) /\
+  (f' 2 6, f' 2 7, f' 2 8, f' 2 9) = (7, 6, 9, 8).
+Proof. vm_compute. repeat split. Qed.
